@@ -224,11 +224,15 @@ class CaseRunner:
         self.failure: dict | None = None  # smallest failing case so far
         self.failures_seen = 0
         self.no_shrink = False
+        self.first_failure: dict | None = None
+        self.history: list = []  # every counted case of the current part, in execution order
 
     def run_case(self, part: Part, data: Any, count: bool = True) -> None:
         """Evaluate; raises Violation on failure (after recording it)."""
         lab = Labels()
         reset_globals(self.clear_caches)
+        if count:
+            self.history.append(data)
         try:
             part.check(data, lab)
         except Violation as v:
@@ -286,6 +290,8 @@ class CaseRunner:
             "clause": clause,
             "detail": detail[:2000],
         }
+        if self.first_failure is None:
+            self.first_failure = dict(self.failure)
 
 
 _gc_counter = 0
@@ -396,6 +402,7 @@ def run_shard(module: Any, ctx: Ctx) -> dict:
             continue
         if part.enumerate is None and part.strategy is None:
             continue  # replay-only part
+        runner.history = []
         if part.enumerate is not None:
             enumeration_search(runner, part)
         else:
@@ -404,11 +411,17 @@ def run_shard(module: Any, ctx: Ctx) -> dict:
             hypothesis_search(runner, part, n)
         if runner.failure is not None:
             break
-    return {
+    res = {
         "stats": stats.to_json(),
         "failure": runner.failure,
+        "first_failure": runner.first_failure,
         "wall_s": time.monotonic() - t0,
     }
+    if runner.first_failure is not None:
+        # cases executed before (and including) the first failure, for state-dependent failures
+        res["history"] = {"part": runner.first_failure["part"],
+                          "cases": json.loads(canonical(runner.history[-400:]))}
+    return res
 
 
 def replay_case(module: Any, case: dict) -> tuple[bool, str]:
@@ -416,14 +429,18 @@ def replay_case(module: Any, case: dict) -> tuple[bool, str]:
     part = next((p for p in module.PARTS if p.name == case["part"]), None)
     if part is None:
         raise HarnessError(f"unknown part {case['part']!r} in replay")
-    reset_globals(getattr(module, "CLEAR_MATCH_CACHES", True))
-    lab = Labels()
-    try:
-        part.check(case["data"], lab)
-    except Violation as v:
-        return False, f"{v.clause}: {v.detail}"
-    except Exception as e:  # noqa: BLE001
-        if from_library(e):
-            return False, f"unexpected-exception: {short_tb(e)}"
-        raise HarnessError(f"replay: {short_tb(e, 10)}") from e
+    # a "sequence" replay runs several cases in one process (failures that need state left
+    # behind by earlier cases, e.g. a cache inside the library)
+    datas = case["sequence"] if "sequence" in case else [case["data"]]
+    for k, data in enumerate(datas):
+        reset_globals(getattr(module, "CLEAR_MATCH_CACHES", True))
+        lab = Labels()
+        try:
+            part.check(data, lab)
+        except Violation as v:
+            return False, f"{v.clause}: {v.detail}" + (f" (case {k + 1} of {len(datas)})" if len(datas) > 1 else "")
+        except Exception as e:  # noqa: BLE001
+            if from_library(e):
+                return False, f"unexpected-exception: {short_tb(e)}"
+            raise HarnessError(f"replay: {short_tb(e, 10)}") from e
     return True, "held"
